@@ -93,10 +93,11 @@ def rules_for(pid):
             ("K-fresh-state", lambda c: RK.k_fresh_state(c.P, c.E, lambda root: not _is_combinator_root(root)), 18),
             ("D-compose", lambda c: RO.d_compose(c.P, c.E), 3),
             ("COUNT", lambda c: RCNT.count_rule(c.P, c.E, c.H), 6),
-            ("OPSEM", lambda c: ROPS.opsem_rule(c.P, c.E, c.H), 16),
-            ("SRC", lambda c: ROPS.creators_rule(c.P, c.E, c.H), 7),
+            ("OPSEM", lambda c: ROPS.opsem_rule(c.P, c.E, c.H), 20),
+            ("SRC", lambda c: ROPS.creators_rule(c.P, c.E, c.H), 9),
             ("D-compose2", lambda c: ROPS.compose_rule(c.P, c.E, c.H), 4),
             ("H-next-forward", lambda c: ROPS.forward_rule(c.P, c.E, c.H), 8),
+            ("SUB-inputs", lambda c: RX.sub_inputs(c.P, c.E, c.H), 40),
         ],
         "C03": [
             ("H-register-first", lambda c: RH.h_register_first(c.P, c.E, c.H), 9),
@@ -108,10 +109,13 @@ def rules_for(pid):
             ("S-fresh-serial", lambda c: RO.s_fresh_serial(c.P, c.E), 2),
             ("S-remove-and-test", lambda c: RO.s_remove_and_test(c.P, c.E), 1),
             ("D-atomic-latest", lambda c: _only(RJ.d_rules(c.P, c.E, c.H), ("D1", "D2"), ("sample", "debounce")), 2),
-            ("GATE", lambda c: ROPS.gates_rule(c.P, c.E, c.H), 3),
+            ("GATE", lambda c: ROPS.gates_rule(c.P, c.E, c.H), 4),
             ("AMB", lambda c: ROPS.amb_rule(c.P, c.E, c.H), 1),
             ("SEQ-EQ", lambda c: ROPS.seq_equal_rule(c.P, c.E, c.H), 1),
+            ("CONCAT", lambda c: ROPS.concat_rule(c.P, c.E, c.H), 1),
+            ("ZIP", lambda c: ROPS.zip_rule(c.P, c.E, c.H), 3),
             ("H-next-forward", lambda c: ROPS.forward_rule(c.P, c.E, c.H), 8),
+            ("SUB-inputs", lambda c: RX.sub_inputs(c.P, c.E, c.H), 40),
         ],
         "C04": [
             ("H-error", lambda c: RH.h_error(c.P, c.E, c.H), 26),
@@ -126,6 +130,8 @@ def rules_for(pid):
             ("OPSEM", lambda c: _only(ROPS.opsem_rule(c.P, c.E, c.H), ("operators::materialize::Materialize",
                                                                       "operators::dematerialize::Dematerialize")), 2),
             ("H-next-forward", lambda c: ROPS.forward_rule(c.P, c.E, c.H), 8),
+            ("SUB-inputs", lambda c: RX.sub_inputs(c.P, c.E, c.H), 40),
+            ("RETRY", lambda c: ROPS.retry_rule(c.P, c.E, c.H), 2),
         ],
         "C05": [
             ("O-unsub-order", lambda c: RO.o_unsub_order(c.P, c.E), 4),
@@ -191,6 +197,7 @@ def rules_for(pid):
             ("K-fresh-state", lambda c: RK.k_fresh_state(c.P, c.E, lambda root: root.startswith("operators::")
                                                         and root.split("::")[1] in SCHED_OPS), 2),
             ("H-next-forward", lambda c: ROPS.forward_rule(c.P, c.E, c.H), 8),
+            ("SUB-inputs", lambda c: RX.sub_inputs(c.P, c.E, c.H), 40),
         ],
         "C10": [
             ("J", lambda c: RJ.j_rules(c.P, c.E), 8),
